@@ -19,18 +19,35 @@ impl PartialEq for Key {
 }
 type M = OrderMap<Key, u8>;
 
-fn any_map() -> (M, [(Key, u8); N], usize) {
+fn any_entries(n: usize) -> [(Key, u8); N] {
     let e: [(Key, u8); N] = [
         (Key(kani::any()), kani::any()),
         (Key(kani::any()), kani::any()),
         (Key(kani::any()), kani::any()),
     ];
-    let n: usize = kani::any();
-    kani::assume(n <= N);
     // wf: keys pairwise distinct under ==
     kani::assume(n < 2 || e[0].0 != e[1].0);
     kani::assume(n < 3 || (e[0].0 != e[2].0 && e[1].0 != e[2].0));
+    e
+}
+fn any_map() -> (M, [(Key, u8); N], usize) {
+    let n: usize = kani::any();
+    kani::assume(n <= N);
+    let e = any_entries(n);
     let m: M = e[..n].iter().copied().collect();
+    (m, e, n)
+}
+/// Same, for a CONCRETE size (the harnesses that move or compare whole
+/// vectors exhaust CBMC's memory with a symbolic allocation size, so they
+/// are instantiated once per size 0..=3 instead).
+fn any_map_n(n: usize) -> (M, [(Key, u8); N], usize) {
+    let e = any_entries(n);
+    let mut m = M::new();
+    let mut i = 0;
+    while i < n {
+        m.0.push(e[i]);
+        i += 1;
+    }
     (m, e, n)
 }
 /// index of the entry whose key == k, per the model
@@ -104,10 +121,8 @@ fn c13_ordermap_insert() {
 
 /// C13: remove deletes exactly the entry with the == key, keeps the order of
 /// the rest, returns its value; absent key => map unchanged.
-#[kani::proof]
-#[kani::unwind(5)]
-fn c13_ordermap_remove() {
-    let (mut m, e, n) = any_map();
+fn remove_law(n: usize) {
+    let (mut m, e, n) = any_map_n(n);
     let k = Key(kani::any());
     let ret = m.remove(&k);
     match find(&e, n, k) {
@@ -132,6 +147,20 @@ fn c13_ordermap_remove() {
     }
 }
 
+macro_rules! gen_sized {
+    ($name:ident, $law:ident, $n:expr) => {
+        #[kani::proof]
+        #[kani::unwind(5)]
+        fn $name() {
+            $law($n);
+        }
+    };
+}
+gen_sized!(c13_ordermap_remove_n0, remove_law, 0);
+gen_sized!(c13_ordermap_remove_n1, remove_law, 1);
+gen_sized!(c13_ordermap_remove_n2, remove_law, 2);
+gen_sized!(c13_ordermap_remove_n3, remove_law, 3);
+
 /// C13: get_mut addresses the same entry as get.
 #[kani::proof]
 #[kani::unwind(5)]
@@ -154,49 +183,63 @@ fn c13_ordermap_get_mut() {
 /// C13: two maps are equal when they have == keys mapped to == values,
 /// regardless of key order (here: any permutation of <= 3 entries, and any
 /// change of key representation), and unequal when a value differs.
-#[kani::proof]
-#[kani::unwind(5)]
-fn c13_ordermap_eq_order_insensitive() {
-    let (m, e, n) = any_map();
-    // permute
-    let p: [usize; N] = match kani::any::<u8>() % 6 {
-        0 => [0, 1, 2],
-        1 => [0, 2, 1],
-        2 => [1, 0, 2],
-        3 => [1, 2, 0],
-        4 => [2, 0, 1],
-        _ => [2, 1, 0],
-    };
+fn eq_order_insensitive_law(n: usize, p: [usize; N]) {
+    let (m, e, n) = any_map_n(n);
+    // `other` holds the same entries in the order p[0], p[1], ..; every key
+    // in a possibly different representation of the same class
     let mut other = M::new();
     let mut i = 0;
-    while i < N {
-        if p[i] < n {
-            let (k, v) = e[p[i]];
-            // same key class, possibly different representation
-            let rep: u8 = kani::any();
-            other.insert(Key((k.0 / 4) * 4 + rep % 4), v);
-        }
+    while i < n {
+        let (k, v) = e[p[i]];
+        let rep: u8 = kani::any();
+        other.0.push((Key((k.0 / 4) * 4 + rep % 4), v));
         i += 1;
     }
     assert!(other.len() == n);
     assert!(m == other, "maps with == keys and == values are equal in any order");
     assert!(other == m, "symmetric");
 }
-#[kani::proof]
-#[kani::unwind(5)]
-fn c13_ordermap_eq_detects_difference() {
-    let (m, e, n) = any_map();
-    kani::assume(n > 0);
-    let mut other = m.clone();
+macro_rules! gen_perm {
+    ($name:ident, $n:expr, $p:expr) => {
+        #[kani::proof]
+        #[kani::unwind(5)]
+        fn $name() {
+            eq_order_insensitive_law($n, $p);
+        }
+    };
+}
+gen_perm!(c13_ordermap_eq_order_insensitive_n1, 1, [0, 0, 0]);
+gen_perm!(c13_ordermap_eq_order_insensitive_n2_01, 2, [0, 1, 0]);
+gen_perm!(c13_ordermap_eq_order_insensitive_n2_10, 2, [1, 0, 0]);
+gen_perm!(c13_ordermap_eq_order_insensitive_n3_012, 3, [0, 1, 2]);
+gen_perm!(c13_ordermap_eq_order_insensitive_n3_021, 3, [0, 2, 1]);
+gen_perm!(c13_ordermap_eq_order_insensitive_n3_102, 3, [1, 0, 2]);
+gen_perm!(c13_ordermap_eq_order_insensitive_n3_120, 3, [1, 2, 0]);
+gen_perm!(c13_ordermap_eq_order_insensitive_n3_201, 3, [2, 0, 1]);
+gen_perm!(c13_ordermap_eq_order_insensitive_n3_210, 3, [2, 1, 0]);
+
+/// C13: a differing value, a differing key or a differing size makes two
+/// maps unequal (both directions).
+fn eq_detects_difference_law(n: usize) {
+    let (m, e, n) = any_map_n(n);
+    let mut other = M::new();
     let i: usize = kani::any();
     kani::assume(i < n);
-    other.insert(e[i].0, e[i].1.wrapping_add(1));
-    assert!(m != other, "a differing value makes maps unequal");
-    let (m2, _e2, n2) = any_map();
-    if n2 != n {
-        assert!(m != m2, "different sizes are unequal");
+    let mut j = 0;
+    while j < n {
+        other.0.push(if j == i { (e[j].0, e[j].1.wrapping_add(1)) } else { e[j] });
+        j += 1;
     }
+    assert!(m != other, "a differing value makes maps unequal");
+    assert!(other != m);
+    // one entry fewer
+    let (m2, _e2, _n2) = any_map_n(n - 1);
+    assert!(m != m2, "different sizes are unequal");
+    assert!(m2 != m);
 }
+gen_sized!(c13_ordermap_eq_detects_difference_n1, eq_detects_difference_law, 1);
+gen_sized!(c13_ordermap_eq_detects_difference_n2, eq_detects_difference_law, 2);
+gen_sized!(c13_ordermap_eq_detects_difference_n3, eq_detects_difference_law, 3);
 
 #[kani::proof]
 #[kani::unwind(5)]
